@@ -45,7 +45,7 @@ def owner(a, clause, exc):
     if op in ("update", "update_all"):
         return "C03"
     if op in ("insert", "insert_multiple"):
-        return "C04" if clause == "store" else "C01"
+        return "C01"          # the contents every later read is judged on (C04 / C08 own it too in their own runs)
     return "C06"
 
 
